@@ -243,7 +243,8 @@ def gen_history(cfg, ref, rng):
         apis = [('checkpoint_results' if rng.random() < 0.25 else 'filename') for _ in range(3)]
         return {'cfg': cfg, 'faults': [{'kind': 'kill', 'at_op': first, 'tear': None},
                                        {'kind': 'kill', 'at_op': second, 'tear': None}],
-                'clock_seed': rng.getrandbits(32), 'resume_api': apis, 'scenario': 'stopped_twice_between_saves'}
+                'clock_seed': rng.getrandbits(32), 'resume_api': apis, 'scenario': 'stopped_twice_between_saves',
+                'ref_clock_reads': ref.get('clock_reads')}
     ops_total = max(ref['ops'], 2)
     ops_per_save = max(2, ops_total // max(1, ref['n_saves']))
     remaining = ops_total  # rough number of file-system ops the next segment still has to do
@@ -282,7 +283,8 @@ def gen_history(cfg, ref, rng):
             faults.append({'kind': 'diskfull', 'at_op': at, 'frac': rng.choice([0.0, 0.3, 0.9, 0.999])})
     # how the user resumes after the s-th crash: by file name (usual) or by loading the file himself
     apis = [('checkpoint_results' if rng.random() < 0.25 else 'filename') for _ in range(n_faults + 1)]
-    return {'cfg': cfg, 'faults': faults, 'clock_seed': rng.getrandbits(32), 'resume_api': apis}
+    return {'cfg': cfg, 'faults': faults, 'clock_seed': rng.getrandbits(32), 'resume_api': apis,
+            'ref_clock_reads': ref.get('clock_reads')}
 
 
 def tolerance_class(cfg):
@@ -366,6 +368,26 @@ def compare_results(ref, res, cfg, stats=None):
                 return ('resume.measurement_differs',
                         f'{k}: max |diff| = {d:.3e} (first at measurement {where}); ref={a.ravel()[:6]} '
                         f'resumed={b.ravel()[:6]}', {'key': k})
+    # every other top-level entry of the results (e.g. what post-processing adds: spectral functions) must be
+    # there and, if numeric, equal
+    skip = {'simulation_parameters', 'version_info', 'finished_run', 'measurements', 'psi', 'resume_data', 'energy',
+            'sweep_stats', 'update_stats', 'errors_during_run', 'psi_ground_state', 'gs_energy'}
+    for k in sorted(set(ref) - skip):
+        if k not in res:
+            return ('resume.results_entry_missing', f'results[{k!r}] of the uninterrupted run is missing', {'key': k})
+        if tc == 'dmrg_weak':
+            continue
+        try:
+            a, b = np.asarray(ref[k]), np.asarray(res[k])
+        except ValueError:
+            continue
+        if a.dtype == object or b.dtype == object or a.dtype.kind in 'US':
+            continue
+        if a.shape != b.shape:
+            return ('resume.results_entry_differs', f'results[{k!r}]: shape {a.shape} vs {b.shape}', {'key': k})
+        if a.size and float(np.max(np.abs(a - b))) > tol['meas']:
+            return ('resume.results_entry_differs', f'results[{k!r}]: max |diff| = '
+                    f'{float(np.max(np.abs(a - b))):.3e}', {'key': k})
     if 'energy' in ref or 'energy' in res:
         if ('energy' in ref) != ('energy' in res):
             return ('resume.energy_missing', 'energy key missing', {})
@@ -425,7 +447,9 @@ def run_history(plan, ref_results, pre_bytes, stats):
         # segment 0 runs on the reference run's clock, so that fault positions drawn from (or, for sweep
         # findings, recorded in) the reference execution land exactly where they point
         cs = core.sub_seed(cfg['seed'], 'clock0') if seg == 0 else core.sub_seed(plan['clock_seed'], f'seg{seg}')
-        o = world.run_segment(start, fault, clock_seed=cs)
+        # I3, bounded liveness: a segment may read the clock at most 10x (+300) as often as the whole uninterrupted run
+        budget = 10 * plan.get('ref_clock_reads', 0) + 300 if plan.get('ref_clock_reads') else None
+        o = world.run_segment(start, fault, clock_seed=cs, max_clock_reads=budget)
         fired = None
         if fault is not None:
             if fault['kind'] == 'kill' and world.fs.crash_fired:
@@ -474,6 +498,10 @@ def run_history(plan, ref_results, pre_bytes, stats):
                 inv = 'disk.partial_file_loads' if 'loads_unknown' in cls else 'disk.no_complete_file_after_finish'
                 return {'invariant': inv, 'detail': detail, 'facts': facts, 'trace': trace}
             break
+        if o['outcome'] == 'no_progress':
+            return {'invariant': 'resume.no_progress' if start[0] == 'resume' else 'run.no_progress',
+                    'detail': f'the simulation did not finish within 10x the clock reads of the uninterrupted run '
+                              f'({o["error"]})', 'facts': facts, 'trace': trace}
         if o['outcome'] == 'exception' and not (isinstance(o['error'], dict) and o['error'].get('injected')):
             err = o['error']
             facts.update({'exc_type': err['type'], 'exc_function': err['function'], 'exc_file': err['file'],
